@@ -355,6 +355,7 @@ def check(prop, tier, seed, budget_s=None):
         else:
             budget_s = float(os.environ.get('VERIF_THOROUGH_S', getattr(mod, 'THOROUGH_S', 480)))
     print('check %s tier=%s VERIF_SEED=%d workers=%d budget=%ss' % (prop, tier, seed, WORKERS, budget_s), flush=True)
+    core.begin_run()
     harness_errors = []
 
     # 1. determinism
@@ -482,6 +483,7 @@ def check(prop, tier, seed, budget_s=None):
         evp, total.worlds, len(total.nontrivial_sigs), len(total.fired), wall), flush=True)
 
     core.drop_process_scratch()
+    core.end_run()
     if harness_errors:
         for h in harness_errors[:5]:
             print('HARNESS-ERROR %s' % h, flush=True)
